@@ -28,7 +28,9 @@ static inline wuffs_base__slice_u8  //
 wuffs_private_impl__io__since(uint64_t mark,
                               uint64_t index,
                               const uint8_t* ptr) {
-  if (index >= mark) {
+  // The (ptr != NULL) avoids undefined behavior (arithmetic on a NULL pointer)
+  // for an empty buffer, such as wuffs_base__empty_io_buffer().
+  if (ptr && (index >= mark)) {
     return wuffs_base__make_slice_u8(((uint8_t*)ptr) + mark,
                                      ((size_t)(index - mark)));
   }
